@@ -659,6 +659,79 @@ key (PKCS#8): {}
 		self.rep.exhaustive.push("RSA keys of 2048/3072/4096/8192 bits x every RSA algorithm of the build x three loading entry points: certificate, request and CRL generation under catch_unwind".into());
 	}
 
+	/// the command-line tool is the crate's other public entry point: whatever options and paths it
+	/// is given, it ends with a verdict of its own (exit status 0 or an error), not with a panic
+	#[cfg(not(feature = "nocrypto"))]
+	pub fn cli_never_panics(&mut self) {
+		use std::os::unix::ffi::OsStringExt;
+		let Ok(cli) = std::env::var("VERIF_CLI") else { return };
+		if !std::path::Path::new(&cli).exists() {
+			return;
+		}
+		let base = format!("/verif/.cache/c10_cli_{}", std::process::id());
+		let os = |b: &[u8]| std::ffi::OsString::from_vec(b.to_vec());
+		let dir = |leaf: &[u8]| { let mut b = format!("{}/", base).into_bytes(); b.extend_from_slice(leaf); os(&b) };
+		let long = "x".repeat(300);
+		let sets: Vec<(&str, Vec<std::ffi::OsString>)> = vec![
+			("defaults", vec!["-o".into(), dir(b"d0")]),
+			("output directory that is not UTF-8", vec!["-o".into(), dir(b"cl\xe9s")]),
+			("output directory of two invalid octets", vec!["-o".into(), dir(b"\xff\xfe")]),
+			("base names that are not UTF-8", vec!["-o".into(), dir(b"d1"), os(b"--cert-file-name=c\xe9"), os(b"--ca-file-name=a\xff")]),
+			("subject strings that are not UTF-8", vec!["-o".into(), dir(b"d2"), os(b"--common-name=n\xe9"), os(b"--organization-name=\xff"), os(b"--country-name=\xfe")]),
+			("alternative name that is not UTF-8", vec!["-o".into(), dir(b"d3"), os(b"--san=h\xe9.example")]),
+			("long values", vec!["-o".into(), dir(b"d4"), format!("--common-name={}", long).into(), format!("--organization-name={}\u{e9}", long).into(), format!("--san={}.example", long).into()]),
+			("empty values", vec!["-o".into(), dir(b"d5"), "--common-name=".into(), "--organization-name=".into(), "--country-name=".into(), "--san=".into(), "--cert-file-name=".into()]),
+			("output directory is a file", vec!["-o".into(), "/dev/null".into()]),
+			("unknown option", vec!["--no-such-option".into()]),
+		];
+		for (what, args) in sets {
+			let out = std::process::Command::new(&cli).args(&args).env("RUST_BACKTRACE", "0").output();
+			let Ok(out) = out else { continue };
+			self.rep.case(&format!("command-line tool: {}", what), true);
+			self.rep.count("cli_runs");
+			let stderr = String::from_utf8_lossy(&out.stderr).to_string();
+			if out.status.code() == Some(101) || out.status.code().is_none() || stderr.contains("panicked at") {
+				self.rep.violate("C10:panic:cli", "the command-line tool panics (or is killed by a signal) instead of ending with a verdict", format!("{}: arguments {:?}\nexit status {:?}\nstderr: {}", what, args, out.status.code(), stderr.chars().take(400).collect::<String>()));
+			}
+		}
+		let _ = std::fs::remove_dir_all(&base);
+		self.rep.exhaustive.push("the command-line tool on 10 option sets (paths and values that are not UTF-8, long, empty, a file as output directory, an unknown option): never exit status 101 / a signal / a panic message".into());
+	}
+
+	/// caller attributes whose SET holds several values, in the order the caller wrote them
+	/// (ascending, descending, a value twice): the value bytes go into the request as they are
+	pub fn csr_attr_multi_value_sweep(&mut self) {
+		let u = |t: &str| { let mut v = vec![0x0c, t.len() as u8]; v.extend_from_slice(t.as_bytes()); v };
+		let set = |vals: &[Vec<u8>]| { let body: Vec<u8> = vals.concat(); let mut v = vec![0x31]; v.extend(der_len(body.len())); v.extend(body); v };
+		let sets: Vec<(&str, Vec<u8>)> = vec![
+			("ascending", set(&[u("a"), u("b")])),
+			("descending", set(&[u("b"), u("a")])),
+			("longer-first", set(&[u("long value"), u("x")])),
+			("three-unsorted", set(&[u("m"), u("z"), u("a")])),
+			("twice", set(&[u("a"), u("a")])),
+			("mixed-types", set(&[vec![0x05, 0x00], u("a"), vec![0x02, 0x01, 0x05]])),
+		];
+		for (name, values) in sets {
+			for with_params in [false, true] {
+				let mut p = PCert::default_like();
+				if with_params {
+					p.san = vec![San::Dns("x.example".into())];
+				}
+				self.rep.count(&format!("csr_multi_valued_attribute:{}", name));
+				// (under a private attribute type: what a well-known type's values have to look like
+				// is the third-party reader's business on the way back)
+				const PRIVATE_A: &[u64] = &[1, 3, 6, 1, 4, 1, 99999, 9];
+				const PRIVATE_B: &[u64] = &[1, 3, 6, 1, 4, 1, 99999, 10];
+				self.csr(&p, &[PAttr { oid: PRIVATE_A, values: values.clone() }], "ed25519");
+				self.csr(&p, &[PAttr { oid: PRIVATE_B, values: values.clone() }, PAttr { oid: PRIVATE_A, values: vec![0x31, 0x03, 0x0c, 0x01, b'z'] }], "ed25519");
+				if name != "mixed-types" {
+					self.csr(&p, &[PAttr { oid: ATTR_OIDS[0], values: values.clone() }], "ed25519");
+				}
+			}
+		}
+		self.rep.exhaustive.push("caller attributes with several values in one SET (ascending, descending, longer first, three unsorted, a value twice, mixed types), alone and next to another attribute".into());
+	}
+
 	/// requests made with keys that came in through every key-loading entry point (instead of the
 	/// generated ones): the requester's SubjectPublicKeyInfo and algorithm as the parser reports
 	/// them, the clause list, and acceptance by rcgen's own parser
@@ -1769,6 +1842,7 @@ pub fn run(ctx: &mut Ctx, prop: &str) -> Report {
 			s.tie_csr = true;
 			s.csr_refusal_sweep();
 			s.csr_attr_sweep();
+			s.csr_attr_multi_value_sweep();
 			#[cfg(not(feature = "nocrypto"))]
 			s.csr_loaded_keys();
 			s.random_csrs(n(800, 30000));
@@ -1800,6 +1874,8 @@ pub fn run(ctx: &mut Ctx, prop: &str) -> Report {
 			s.ctor_sweep();
 			#[cfg(not(feature = "nocrypto"))]
 			s.big_key_signing();
+			#[cfg(not(feature = "nocrypto"))]
+			s.cli_never_panics();
 			s.parse_stream(n(300, 20000));
 			s.random_certs(n(200, 8000));
 			s.random_csrs(n(100, 4000));
@@ -1834,6 +1910,20 @@ impl<'a> Suite<'a> {
 				PrivateKeyDer::try_from(b.to_vec()).map(|d| keys::build_algs().iter().any(|a| KeyPair::from_der_and_sign_algo(&d, a).is_ok())).unwrap_or(false)
 			})),
 			("spki_from_der", Box::new(|b| SubjectPublicKeyInfo::from_der(b).is_ok())),
+			// the same bytes under each label a caller can put on them (a PrivateKeyDer says what it
+			// holds; nothing makes it true)
+			("keypair_under_each_label", Box::new(|b| {
+				use rustls_pki_types::{PrivatePkcs1KeyDer, PrivateSec1KeyDer};
+				let labelled = [PrivateKeyDer::Pkcs8(PrivatePkcs8KeyDer::from(b.to_vec())), PrivateKeyDer::Sec1(PrivateSec1KeyDer::from(b.to_vec())), PrivateKeyDer::Pkcs1(PrivatePkcs1KeyDer::from(b.to_vec()))];
+				let mut any = false;
+				for d in &labelled {
+					any |= KeyPair::try_from(d).is_ok();
+					for a in keys::build_algs() {
+						any |= KeyPair::from_der_and_sign_algo(d, a).is_ok();
+					}
+				}
+				any
+			})),
 		];
 		let text_entries: Vec<Entry> = vec![
 			("from_ca_cert_pem", Box::new(move |b| CertificateParams::from_ca_cert_pem(&text(b)).is_ok())),
@@ -1878,6 +1968,9 @@ impl<'a> Suite<'a> {
 		for (n, d) in crate::props::c06::resigned_variants(&self.ctx.rsa_fixture.clone()) {
 			der_seeds.push((format!("resigned:{}", n), d));
 		}
+		// key documents of every algorithm and encoding the build knows of (offered as they are,
+		// to every entry point; the mutation loop below works on the shorter seeds)
+		let key_docs: Vec<(String, Vec<u8>)> = crate::props::c11::make_docs(&self.ctx.rsa_fixture.clone(), false).into_iter().map(|d| (format!("key-doc:{}:{}:{}", d.origin, d.fmt, d.kty), d.der)).collect();
 		let text_seeds: Vec<(String, Vec<u8>)> = vec![
 			("ca-pem".into(), simple_ca.pem().into_bytes()),
 			("csr-pem".into(), csr.pem().unwrap().into_bytes()),
@@ -1889,7 +1982,10 @@ impl<'a> Suite<'a> {
 		let mut run = |this: &mut Self, entries: &Vec<Entry>, origin: &str, bytes: &[u8]| {
 			for (name, f) in entries {
 				offers += 1;
-				match std::panic::catch_unwind(std::panic::AssertUnwindSafe(|| f(bytes))) {
+				crate::begin_op(&format!("parsing entry point {} (origin {})", name, origin), bytes);
+				let r = std::panic::catch_unwind(std::panic::AssertUnwindSafe(|| f(bytes)));
+				crate::end_op();
+				match r {
 					Ok(true) => accepted += 1,
 					Ok(false) => {},
 					Err(_) => {
@@ -1900,6 +1996,10 @@ impl<'a> Suite<'a> {
 			}
 		};
 		let thorough = self.ctx.thorough;
+		for (name, doc) in &key_docs {
+			run(self, &entries, name, doc);
+			self.rep.count("key_documents_offered_to_every_entry_point");
+		}
 		for (set, entries, is_text) in [(&der_seeds, &entries, false), (&text_seeds, &text_entries, true)] {
 			for (name, seed) in set.iter() {
 				run(self, entries, name, seed);
